@@ -1,0 +1,59 @@
+//go:build verif
+
+package datastore
+
+import "github.com/janelia-flyem/dvid/dvid"
+
+// VerifIDState is a read-only copy of the identifier maps and counters (verification harness only).
+type VerifIDState struct {
+	UUIDToVersion map[dvid.UUID]dvid.VersionID
+	VersionToUUID map[dvid.VersionID]dvid.UUID
+	BranchToUUID  map[string]dvid.UUID
+	RepoToUUID    map[dvid.RepoID]dvid.UUID
+	ReposByUUID   map[dvid.UUID]dvid.UUID // node UUID -> root UUID of the repo it is filed under
+	NextRepoID    dvid.RepoID
+	NextVersionID dvid.VersionID
+	NextInstance  dvid.InstanceID
+	InstanceIDs   map[dvid.InstanceID]dvid.UUID // instance id -> data UUID
+}
+
+// VerifIDs returns a copy of the manager's identifier state.
+func VerifIDs() VerifIDState {
+	s := VerifIDState{
+		UUIDToVersion: map[dvid.UUID]dvid.VersionID{},
+		VersionToUUID: map[dvid.VersionID]dvid.UUID{},
+		BranchToUUID:  map[string]dvid.UUID{},
+		RepoToUUID:    map[dvid.RepoID]dvid.UUID{},
+		ReposByUUID:   map[dvid.UUID]dvid.UUID{},
+		InstanceIDs:   map[dvid.InstanceID]dvid.UUID{},
+	}
+	if manager == nil {
+		return s
+	}
+	manager.idMutex.RLock()
+	for k, v := range manager.uuidToVersion {
+		s.UUIDToVersion[k] = v
+	}
+	for k, v := range manager.versionToUUID {
+		s.VersionToUUID[k] = v
+	}
+	for k, v := range manager.repoToUUID {
+		s.RepoToUUID[k] = v
+	}
+	s.NextRepoID, s.NextVersionID, s.NextInstance = manager.repoID, manager.versionID, manager.instanceID
+	for id, d := range manager.iids {
+		s.InstanceIDs[id] = d.DataUUID()
+	}
+	manager.idMutex.RUnlock()
+	manager.branchMutex.RLock()
+	for k, v := range manager.branchToUUID {
+		s.BranchToUUID[k] = v
+	}
+	manager.branchMutex.RUnlock()
+	manager.repoMutex.RLock()
+	for k, r := range manager.repos {
+		s.ReposByUUID[k] = r.uuid
+	}
+	manager.repoMutex.RUnlock()
+	return s
+}
